@@ -54,6 +54,12 @@ where
     }
 }
 
+/// The smallest unsigned value needing as many bytes as `v` needs in two's complement.
+fn signed_magnitude(v: i64) -> u64 {
+    let magnitude = if v < 0 { !(v as u64) } else { v as u64 };
+    magnitude << 1
+}
+
 #[derive(Default, Debug)]
 pub enum ValueCounter<T> {
     #[default]
@@ -96,7 +102,7 @@ pub enum Property<PN: PropertyName> {
     },
     SignedInt {
         counter: ValueCounter<i64>,
-        size: PropertySize<i64>,
+        size: PropertySize<u64>,
         name: PN,
     },
     Array {
@@ -242,11 +248,11 @@ impl<PN: PropertyName> Property<PN> {
             } => match entry.value(name).as_ref() {
                 Value::Signed(value) => {
                     counter.process(*value);
-                    size.process(*value);
+                    size.process(signed_magnitude(*value));
                 }
                 Value::SignedWord(value) => {
                     counter.process(value.get());
-                    size.process(value.get());
+                    size.process(signed_magnitude(value.get()));
                 }
                 _ => {
                     panic!("Value type doesn't correspond to property");
